@@ -1,8 +1,8 @@
 /-!
 # Model of `deephyper/skopt/space/{space,transformers}.py` (C09; shared with C02, C10)
 
-What is modelled, branch by branch (the code as it is **after** the three `fix:` commits of
-branch `fix-g4`, see `notes/C09.md`, `notes/C10.md`):
+What is modelled, branch by branch (the code as it is on `/repo` main, i.e. **after** the `fix:`
+commits c712e68, 01bcae6, 5b1cf8d, see `notes/C09.md`, `notes/C10.md`):
 
 * `transformers.py`: `Identity`, `Identity(type_func=int)`, `LogN`, `Normalize(low, high, is_int)`,
   `LabelEncoder`, `CategoricalEncoder` (a `LabelBinarizer` over the category indices, including
@@ -527,6 +527,37 @@ def inBounds : List Rat → List (Rat × Rat) → Bool
   | [], [] => true
   | x :: xs, b :: bs => decide (b.1 ≤ x) && decide (x ≤ b.2) && inBounds xs bs
   | _, _ => false
+
+/-! ### executable checkers of the property on outputs of the implementation (proved equal to
+their index-wise specifications in `Proofs/SpaceCheckers.lean`, run by the driver on the REAL
+`transform` / `inverse_transform` outputs) -/
+
+/-- `p` holds position by position and the two lists have the same length -/
+def all2 {α β : Type} (p : α → β → Bool) : List α → List β → Bool
+  | [], [] => true
+  | a :: as, b :: bs => p a b && all2 p as bs
+  | _, _ => false
+
+/-- "the same value": floats within the tolerance `t`, everything else equal as Python objects of
+the same kind -/
+def cellClose (t : Rat) : Val → Val → Bool
+  | .num a, .num b => decide (a - b ≤ t) && decide (b - a ≤ t)
+  | v, w => decide (v = w)
+
+/-- `transform(X)` has `n` rows of `transformed_n_dims` columns -/
+def checkShape (dims : List Dim) (n : Nat) (Xt : List (List Rat)) : Bool :=
+  decide (Xt.length = n) && Xt.all (fun r => decide (r.length = transformedNDims dims))
+
+/-- every coordinate inside its `(low, high)` pair, as many coordinates as pairs -/
+def checkBounds (bounds : List (Rat × Rat)) (Xt : List (List Rat)) : Bool :=
+  Xt.all (fun r => all2 (fun x b => decide (b.1 ≤ x) && decide (x ≤ b.2)) r bounds)
+
+/-- round trip: `XT` = the input points, every entry paired with its tolerance (0 for integers
+and categories); `X'` = what `inverse_transform(transform(X))` returned: one row per row, one
+entry per entry, the same values, every returned row a point of the space -/
+def checkRoundTrip (dims : List Dim) (XT : List (List (Val × Rat))) (X' : List (List Val)) : Bool :=
+  all2 (fun rowT row' => all2 (fun vt v' => cellClose vt.2 vt.1 v') rowT row') XT X' &&
+    X'.all (memRow dims)
 
 /-- dimensions whose `inverse_transform` snaps *any* input to a member (clip / round / lookup):
 all but the identity-transformed categorical, which hands the value back unchanged -/
